@@ -204,6 +204,15 @@ class GenResult(list):
     context_manager = False
 
 
+class Suppress:
+    """contextlib.suppress(*exceptions)"""
+
+    context_manager = True
+
+    def __init__(self, names):
+        self.names = list(names)
+
+
 class ReturnSignal(Exception):
     def __init__(self, value):
         self.value = value
@@ -796,39 +805,103 @@ class Interp:
 
     def st_Try(self, st, env, mi):
         try:
-            self.exec_body(st.body, env, mi)
-        except RaiseSignal as r:
-            for h in st.handlers:
-                names = []
-                if h.type is None:
-                    names = [r.exc_type]
-                elif isinstance(h.type, ast.Tuple):
-                    names = [ast.unparse(e).split('.')[-1] for e in h.type.elts]
+            try:
+                self.exec_body(st.body, env, mi)
+            except RaiseSignal as r:
+                for h in st.handlers:
+                    if h.type is None:
+                        names = [r.exc_type]
+                    elif isinstance(h.type, ast.Tuple):
+                        names = [ast.unparse(e).split('.')[-1] for e in h.type.elts]
+                    else:
+                        names = [ast.unparse(h.type).split('.')[-1]]
+                    if self.exc_matches(r.exc_type, names):
+                        ev = ExcValue(r.exc_type, r.exc_args)
+                        if h.name:
+                            env[h.name] = ev
+                        env['__active_exception__'] = ev
+                        self.exec_body(h.body, env, mi)
+                        break
                 else:
-                    names = [ast.unparse(h.type).split('.')[-1]]
-                if r.exc_type in names or 'Exception' in names or 'BaseException' in names:
-                    ev = ExcValue(r.exc_type, r.exc_args)
-                    if h.name:
-                        env[h.name] = ev
-                    env['__active_exception__'] = ev
-                    self.exec_body(h.body, env, mi)
-                    break
+                    raise
             else:
-                raise
-        else:
-            self.exec_body(st.orelse, env, mi)
-        finally:
-            pass
+                self.exec_body(st.orelse, env, mi)
+        except (RaiseSignal, ReturnSignal, BreakSignal, ContinueSignal):
+            # the finally clause runs on every way out (a return or raise inside it replaces the pending one)
+            self.exec_body(st.finalbody, env, mi)
+            raise
         self.exec_body(st.finalbody, env, mi)
 
+    _EXC_BASES = {
+        'KeyError': 'LookupError', 'IndexError': 'LookupError', 'LookupError': 'Exception',
+        'FileNotFoundError': 'OSError', 'PermissionError': 'OSError', 'FileExistsError': 'OSError', 'IsADirectoryError': 'OSError',
+        'IOError': 'OSError', 'EnvironmentError': 'OSError', 'OSError': 'Exception',
+        'ZeroDivisionError': 'ArithmeticError', 'OverflowError': 'ArithmeticError', 'FloatingPointError': 'ArithmeticError',
+        'ArithmeticError': 'Exception', 'UnicodeDecodeError': 'UnicodeError', 'UnicodeEncodeError': 'UnicodeError',
+        'UnicodeError': 'ValueError', 'NotImplementedError': 'RuntimeError', 'RecursionError': 'RuntimeError',
+        'ModuleNotFoundError': 'ImportError', 'StopIteration': 'Exception', 'EOFError': 'Exception',
+        'DTypeError': 'TypeError', 'BinEdgeError': 'RuntimeError', 'BinnedDataError': 'RuntimeError', 'CoordError': 'RuntimeError',
+        'DataArrayError': 'RuntimeError', 'DatasetError': 'RuntimeError', 'DimensionError': 'RuntimeError', 'UnitError': 'RuntimeError',
+        'VariableError': 'RuntimeError', 'VariancesError': 'RuntimeError',
+    }
+
+    def exc_matches(self, raised: str, names) -> bool:
+        """Does `except <names>` catch an exception of class `raised`?  Builtin and scipp classes by their hierarchy, classes of
+        the package by their bases."""
+        seen = set()
+        cur = raised
+        while cur is not None and cur not in seen:
+            if cur in names or (cur == 'OSError' and ('IOError' in names or 'EnvironmentError' in names)):
+                return True
+            seen.add(cur)
+            nxt = self._EXC_BASES.get(cur)
+            if nxt is None:
+                for m in self.repo.modules.values():
+                    ci = m.classes.get(cur)
+                    if ci is not None and ci.bases:
+                        nxt = ci.bases[0].split('[')[0].split('.')[-1]
+                        break
+            if nxt is None and cur not in ('Exception', 'BaseException'):
+                nxt = 'Exception'
+            cur = nxt
+        return 'BaseException' in names
+
     def st_With(self, st, env, mi):
+        managers = []
         for item in st.items:
             v = self.eval(item.context_expr, env, mi)
+            managers.append(v)
             if isinstance(v, GenResult) and v.context_manager:
                 v = v[0] if v else None
+            elif isinstance(v, SObj) and self.find_method(v.cls, '__enter__') is not None:
+                v = self.call_function(self.find_method(v.cls, '__enter__'), [], {}, bound=v)
             if item.optional_vars is not None:
                 self.assign(item.optional_vars, v, env, mi)
-        self.exec_body(st.body, env, mi)
+        try:
+            self.exec_body(st.body, env, mi)
+        except RaiseSignal as r:
+            for m in reversed(managers):
+                if isinstance(m, Suppress) and self.exc_matches(r.exc_type, m.names):
+                    return  # contextlib.suppress: the statement ends here
+                if self._exit(m, ExcValue(r.exc_type, r.exc_args)):
+                    return
+            raise
+        except (ReturnSignal, BreakSignal, ContinueSignal):
+            for m in reversed(managers):
+                self._exit(m, None)
+            raise
+        for m in reversed(managers):
+            self._exit(m, None)
+
+    def _exit(self, manager, exc) -> bool:
+        """__exit__ of a context manager class of the package; True if it swallows the exception"""
+        if isinstance(manager, SObj):
+            ex = self.find_method(manager.cls, '__exit__')
+            if ex is not None:
+                args = [Opaque('exception type'), exc, Opaque('traceback')] if exc is not None else [None, None, None]
+                r = self.call_function(ex, args, {}, bound=manager)
+                return exc is not None and r is True
+        return False
 
     def st_Match(self, st, env, mi):
         subject = self.eval(st.subject, env, mi)
